@@ -872,7 +872,14 @@ fn do_command_substitution_for_dollar(sh: &mut Shell, tokens: &mut types::Tokens
                 break;
             }
 
-            let ptn_cmd = r"\$\((.+)\)";
+            // the innermost `$(...)` first, so that several substitutions in
+            // one word and nested ones are taken one by one; a command with
+            // parentheses of its own is matched up to the last `)`.
+            let ptn_cmd = if libs::re::re_contains(&line, r"\$\([^()]+\)") {
+                r"\$\(([^()]+)\)"
+            } else {
+                r"\$\((.+)\)"
+            };
             let cmd = match libs::re::find_first_group(ptn_cmd, &line) {
                 Some(x) => x,
                 None => {
@@ -905,9 +912,8 @@ fn do_command_substitution_for_dollar(sh: &mut Shell, tokens: &mut types::Tokens
 
             let output_txt = cmd_result.stdout.trim_end_matches('\n');
 
-            let ptn = r"(?P<head>[^\$]*)\$\(.+\)(?P<tail>.*)";
             let re;
-            if let Ok(x) = Regex::new(ptn) {
+            if let Ok(x) = Regex::new(ptn_cmd) {
                 re = x;
             } else {
                 return;
@@ -915,7 +921,7 @@ fn do_command_substitution_for_dollar(sh: &mut Shell, tokens: &mut types::Tokens
 
             // `$` is special in a replacement template (`$1`, `${name}`):
             // the output must be inserted literally.
-            let to = format!("${{head}}{}${{tail}}", output_txt.replace("$", "$$"));
+            let to = output_txt.replace("$", "$$");
             let line_ = line.clone();
             let result = re.replace(&line_, to.as_str());
             line = result.to_string();
